@@ -18,6 +18,7 @@ func init() {
 		Assumptions: []string{"timestamps are normalised (0 <= nanos < 1e9)"},
 		Run:         runC18,
 		Controls: []Control{
+			{Name: "activeat-turns-away-zero", File: "pkg/trait/electricpb/segmentpb/active.go", Old: "\tif d < 0 {\n\t\treturn d, 0\n\t}", New: "\tif d <= 0 {\n\t\treturn d, 0\n\t}", Expect: "R18.7"},
 			{Name: "zero-length-read-as-endless", File: "pkg/trait/electricpb/segmentpb/sum.go", Old: "\t\t\tif segment.Length == nil {\n\t\t\t\tbreak", New: "\t\t\tif segment.GetLength().AsDuration() == 0 {\n\t\t\t\tbreak", Expect: "R18.6"},
 			{Name: "comparator-returns-two", File: "pkg/time/timestamp.go", Old: "\tcase t1.Seconds > t2.Seconds:\n\t\treturn 1", New: "\tcase t1.Seconds > t2.Seconds:\n\t\treturn 2", Expect: "R18.1"},
 			{Name: "comparator-sign-flipped", File: "pkg/time/timestamp.go", Old: "\tcase t1.Nanos < t2.Nanos:\n\t\treturn -1", New: "\tcase t1.Nanos < t2.Nanos:\n\t\treturn 1", Expect: "R18.1"},
@@ -40,6 +41,7 @@ func runC18(c *an.Ctx) {
 	r184(c)
 	r185(c)
 	r186(c)
+	r187(c)
 	c.Min("R18.6", 5)
 	c.Min("R18.1", 2)
 	c.Min("R18.2", 10)
@@ -713,4 +715,33 @@ func r186(c *an.Ctx) {
 		}
 	}
 	c.Count("length_conversions", n)
+}
+
+// r187: time zero belongs to the step function. ActiveAt (and everything built on it: MagnitudeAt, MaxAfter, the mode
+// functions, which pass 0 for modes without a start time) turns away negative offsets only: the scan over the segments
+// is reachable with d == 0, so leading zero-length segments are stepped over like anywhere else.
+func r187(c *an.Ctx) {
+	const rule = "R18.7"
+	fn := mustFunc(c, rule, "pkg/trait/electricpb/segmentpb", "", "ActiveAt")
+	if fn == nil || len(fn.Params) < 1 {
+		return
+	}
+	d := fn.Params[0]
+	name := an.FuncName(fn)
+	c.SawFunc(name)
+	// the scan: the first conversion of a segment's length (or, failing that, any indexing of the segments)
+	var scan ssa.Instruction
+	an.Instrs(fn, func(in ssa.Instruction) {
+		if scan == nil && an.IsCallTo(in, "(*google.golang.org/protobuf/types/known/durationpb.Duration).AsDuration") {
+			scan = in
+		}
+	})
+	if scan == nil {
+		c.Unk(rule, name+"|offset zero is scanned like any other", fn.Pos(), "the scan over the segments was not recognised")
+		return
+	}
+	lo, _, okLo, _ := an.IntBounds(d, scan)
+	// a lower bound above 0 means d == 0 never reaches the scan
+	c.Check(!okLo || lo <= 0, rule, name+"|offset zero is scanned like any other", scan.Pos(), "the scan is reachable with d == 0",
+		fmt.Sprintf("the scan over the segments is only reached with d >= %d: at offset 0 the early return answers without stepping over leading zero-length segments, so ActiveAt(0)/MagnitudeAt(0) name a segment that occupies no time - the list is no longer read as the step function it denotes", lo))
 }
